@@ -521,13 +521,24 @@ def exec_cell(rec):
         mesh = build_mesh(mr)
         mapping = mesh.mapping()
         e = build(spec)
-        return mesh, mapping, e, nbfun(e)
+        # every library call whose result the sampling plan needs is made here, under the guard: an exception of the
+        # library (e.g. a degenerate second-order mesh) is an observation (Build: ...), not a harness crash
+        cells = choose_cells(mesh, mapping, kind, int(rec['ncell']))
+        iA_of = {}
+        if affine:
+            for k in cells:
+                DFk = np.asarray(mapping.DF(np.full((d, 1), 0.25), tind=np.array([k], dtype=np.int64)))[:, :, 0, 0]
+                iA_of[k] = inv_exact(DFk)
+        m2 = None
+        if info['anyglobal'] and rec.get('mesh2'):
+            mesh2 = build_mesh(rec['mesh2'])
+            m2 = (mesh2, mesh2.mapping())
+        return mesh, mapping, e, nbfun(e), cells, iA_of, m2
     built, err = guarded(prepare, 60)
     if err:
         return [err_event(base0, 'Deriv', 'Build:' + err, **EMPTY['Deriv'])]
-    mesh, mapping, e, N = built
+    mesh, mapping, e, N, cells, iA_of, m2 = built
     rng = np.random.default_rng(int(rec['seed']))
-    cells = choose_cells(mesh, mapping, kind, int(rec['ncell']))
     lat = lattice(kind)
     events = []
     wrapper = info['wrap'] in ('Vector', 'Composite')
@@ -590,8 +601,7 @@ def exec_cell(rec):
             n = int(info['n_dir'] if info['allglobal'] else info['n_tot'])
             okw1 = info['okwin']['1'][str(n)]
             okw2 = info['okwin']['2'][str(n)]
-            Xc = np.full((d, 1), 0.25)
-            iA = inv_exact(np.asarray(mapping.DF(Xc, tind=np.array([k], dtype=np.int64)))[:, :, 0, 0])
+            iA = iA_of[k]
             dirs = (lambda X0, iA=iA: [[iA[r][c] for r in range(d)] for c in range(d)])     # columns of invDF
             for i in range(N):
                 b = dict(base, i=i + 1, tags={'cell': int(k), 'tl': 1 if tls[k] else 0, 'i': i + 1})
@@ -725,10 +735,9 @@ def exec_cell(rec):
     if deriv_ok:
         n = int(info['n_dir'] if info['allglobal'] else info['n_tot'])
         okw1 = info['okwin']['1'][str(n)]
-        Xc = np.full((d, 1), 0.25)
         dirs_of, verts_of = {}, {}
         for k in cells:
-            iA = inv_exact(np.asarray(mapping.DF(Xc, tind=np.array([k], dtype=np.int64)))[:, :, 0, 0])
+            iA = iA_of[k]
             dirs_of[k] = (lambda X0, iA=iA: [[iA[r][c] for r in range(d)] for c in range(d)])
             verts_of[k] = exact_ints(mesh.p[:, mesh.t[:, k]].T)
         # ------------ MappedDerivative / GlobalDerivative with per-element point arrays: every cell has its own nodes
@@ -757,10 +766,7 @@ def exec_cell(rec):
                         events.append(ev if not err else err_event(bp, 'Deriv', 'Malformed:' + err, **EMPTY['Deriv']))
         # ------------ the same under a call history on the SAME instance (one buffer overwritten in place / two
         #              alternating buffers); for global elements every call is followed by a call on ANOTHER mesh
-        mesh2 = mapping2 = None
-        if info['anyglobal'] and rec.get('mesh2'):
-            mesh2 = build_mesh(rec['mesh2'])
-            mapping2 = mesh2.mapping()
+        mapping2 = m2[1] if m2 is not None else None
         for nbuf, k in zip((1, 2), (cells[-1], cells[0])):
             sel = [lat[j] for j in sorted(rng.choice(len(lat), size=1, replace=False))]
             plans, X = plan_points(kind, sel, dirs_of[k], n, okw1, rng, HS_PHYS)
